@@ -68,3 +68,20 @@ Example C02_nonvacuous :
   r_exit rep = XNormal /\ read (o_mem (r_os rep)) 0x401000 12 = read (fun _ => 0x90) 0x401000 12 /\ o_owned (r_os rep) = [] /\ o_dirty (r_os rep) = [].
 Proof. exact restore_lifo_same_case. Qed.
 Print Assumptions C02_nonvacuous.
+
+(* the same two statements for the restoration order FOUND IN THE SOURCE NOW ([src_lifo] is computed from the text of
+   `impl Drop for InjectorPP`, regenerated on every run): they check only while the source pops its guards newest-first *)
+From Inj Require Import SrcTieLife.
+Theorem C02_restore_all_as_in_source : forall c reset k s0 ctr named ops,
+  enc_wf (c_enc c) -> alloc_wf (c_alloc c) -> alloc_nonnull (c_alloc c) k -> script_wf c named ops ->
+  let rep := lifetime c reset src_lifo k s0 ctr ops in
+  r_exit rep <> XAbort -> r_exit rep <> XFault ->
+  forall x, ~ inJ (o_trace (r_os rep)) x -> o_mem (r_os rep) x = o_mem s0 x.
+Proof. exact C02_restore_all. Qed.
+Print Assumptions C02_restore_all_as_in_source.
+Theorem C02_lifetimes_as_in_source : forall c reset k named ls s0 ctr,
+  enc_wf (c_enc c) -> alloc_wf (c_alloc c) -> alloc_nonnull (c_alloc c) k -> Forall (script_wf c named) ls ->
+  let '(s', _, reps) := lifetimes c reset src_lifo k s0 ctr ls in
+  Forall good_exit reps -> forall x, ~ inJ (o_trace s') x -> o_mem s' x = o_mem s0 x.
+Proof. exact C02_lifetimes. Qed.
+Print Assumptions C02_lifetimes_as_in_source.
